@@ -168,6 +168,19 @@ PROPS["C07"] = dict(
     assumptions=["compressor round trip", "proposals of one restore are applied in proposal order (single proposer, SyncPropose)"],
 )
 
+PROPS["C18"] = dict(
+    title="Wire codecs and stream framing are lossless for every message and chunking",
+    design_ref="DESIGN.md section 7 (C18)",
+    run_files=["Run/C18Run.v", "Run/C07Run.v"],
+    engines=[dict(cmd=["c18"], corr="Model.ProtoWire.{msg_enc,msg_dec,varint_enc,varint_dec} <-> regattaserver/encoding/proto Codec + regattapb *_vtproto.pb.go MarshalVT/UnmarshalVT"),
+             dict(cmd=["c07", "--framing-only"], summary="c07", corr="Model.Framing <-> snapshot.snapshotFile/Writer/Reader", timeout=600)],
+    level_text="Theorems: varint and field-list encode/decode round trip for every well-formed field list (all wire types, nesting as byte fields, any sizes), decode into a recycled object equals decode into a fresh one, frames survive every chunking under any round-tripping compressor. The real registered codec is run on generated messages of the API/replication types (every oneof arm, absent vs empty, nil vs empty, 64-bit extremes) with bytes compared to the wire model's encoding of the reflected field tree, fresh and recycled receivers; gzip/snappy/zstd under 16 goroutines; snapshot files through Writer/Reader at chunk sizes 1 B..1 MiB.",
+    level_note="Trusts: Coq kernel; the schema layer (which Go field a number denotes, proto3 default omission, oneof) is reflected by the harness from the generated descriptors, not proved; compressor correctness and sync.Pool behaviour under the Go scheduler are exercised, not proved (PARTIAL).",
+    technique="Coq proof (varint arithmetic, parser-with-fuel induction) + differential correspondence check of vtprotobuf bytes against the wire model, concurrency exercise of pooled compressors",
+    trusted=["Model/ProtoWire.v hand-written model of the protobuf wire format", "Model/Framing.v"],
+    assumptions=["compress/decompress round trip (klauspost/compress)"],
+)
+
 # Properties not (yet) claimed, each with a reason; kept current as checks are added.
 _PENDING = "check not built yet in this development; will be claimed once its model, theorems and correspondence harness exist"
 NOT_APPLICABLE = [dict(property_id="C%02d" % i, reason=_PENDING) for i in range(1, 20) if "C%02d" % i not in PROPS]
